@@ -266,9 +266,30 @@ Definition init_calls_static_data_last : bool :=
 Definition term_calls_static_data_first : bool :=
   match gen_platform_term_calls with c :: _ => String.eqb c "XMLInitializer::terminateStaticData" | [] => false end.
 
+(** every mutation site of the pool's grammar registry is dominated by the fLocked test (per site and per branch, see
+    translator dominated_by_flag), and the three mutators of the public interface are among the sites found *)
 Definition pool_guards_ok : bool :=
-  negb (Nat.eqb (List.length gen_pool_guards) 0) && forallb (fun g => snd (snd g)) gen_pool_guards.
+  forallb (fun g => snd (snd g)) gen_pool_guards &&
+  forallb (fun f => existsb (fun g => String.eqb (fst g) f) gen_pool_guards)
+          ["XMLGrammarPoolImpl::cacheGrammar"; "XMLGrammarPoolImpl::orphanGrammar"; "XMLGrammarPoolImpl::clear"].
+
+(** shared range tokens as the built library reports them right after Initialize: every token that exists has its bitmap
+    built (a token whose map is built lazily on first match is shared state that Initialize should have built: racy);
+    every keyword has its positive token; the only complement tokens that are still created on first use (under
+    RangeTokenMap's mutex) are the four listed -- part of known finding F17-4, not used by the default workloads *)
+Definition lazy_complements : list string := ["ALL"; "ASSIGNED"; "IsAlnum"; "IsAlpha"].
+Definition rt_key (t : string * (bool * (bool * bool))) := fst t.
+Definition rt_compl (t : string * (bool * (bool * bool))) := fst (snd t).
+Definition rt_present (t : string * (bool * (bool * bool))) := fst (snd (snd t)).
+Definition rt_map (t : string * (bool * (bool * bool))) := snd (snd (snd t)).
+Definition range_tokens_ok : bool :=
+  Nat.leb 200 (List.length gen_range_tokens) &&
+  forallb (fun t => if rt_present t then rt_map t
+                    else rt_compl t && mem_str (rt_key t) lazy_complements) gen_range_tokens.
+Definition bad_range_tokens : list string :=
+  map rt_key (filter (fun t => negb (if rt_present t then rt_map t else rt_compl t && mem_str (rt_key t) lazy_complements))
+                     gen_range_tokens).
 
 Definition inventory_ok : bool :=
   all_classified && all_sites_ok && guarded_nonvacuous && init_term_mirror && init_calls_static_data_last &&
-  term_calls_static_data_first && pool_guards_ok.
+  term_calls_static_data_first && pool_guards_ok && range_tokens_ok.
